@@ -26,6 +26,12 @@ CLAIMS = {
          "Concurrent and duplicate start/stop/restart requests (unknown names included) are issued by several client tasks against processes that exit fast, die slowly, restart or wait for dependencies; at every launch no other command of the replica may be alive, a successful stop must end in termination without relaunch, start must succeed iff no instance is active."),
  "C20": ("exploration", "3.C20", "seeded simulated runs under the Go race detector (serialised schedules, happens-before-faithful simulated sync primitives, scheduler hand-offs hidden from the detector) + panic and blocked-forever oracles",
          "2-5 client tasks issue state/log queries, subscriptions and start/stop/restart/scale/shutdown requests against projects whose processes exit, restart and log, plus a poller with the TUI's access pattern; every seeded schedule runs under the Go race detector, which reports each pair of conflicting accesses the schedule visits that no synchronisation of the code under test orders - deterministically per seed and replayable. Panics in any task and calls that never return are violations too."),
+ "C10": ("exploration", "3.C10", "seeded simulated runs with scripted probe-outcome sequences (successes, failures, hanging probe commands) and probe parameters drawn from {-1,0,1,2,3,10,unset}; probe runs, signals and relaunches read off the simulated kernel and fake clock; reported health compared at every stable point",
+         "Exec readiness probes run unmodified against the simulated kernel: every probe command launch, its time-out kill, the stop signal after the failure threshold and the relaunch are events of the simulated process table on the fake clock. Effective parameters are observed (first probe not before the initial delay, runs of one prober at least 1 s apart, hanging probe killed no earlier than the effective time-out), the stop comes exactly when failure_threshold consecutive runs of this launch's prober failed and never earlier, the relaunch follows iff the restart policy owes one, and the reported health at every stable point equals the outcome of the last finished probe run of the current launch (unknown when none finished). Liveness probes of daemons and http probes (port range) are not exercised: see DESIGN.md."),
+ "C11": ("exploration", "3.C11", "seeded simulated runs with scripted output on both streams (chunk splitting, partial last lines, bursts, read errors, restarts); every byte written to the simulated pipes is compared with the log buffer and the log file at the end",
+         "What a process wrote to the simulated pipes is ground truth: every complete line must reach the in-memory log and the log file once, in per-stream order, whole (never split or merged across chunk boundaries) and attributed to the right process, across restarts and read errors."),
+ "C18": ("exploration", "3.C18", "seeded concurrent writers/readers/subscribers of the log buffer under the cooperative scheduler; porcupine linearizability against a sequential ring model; follower oracle (no loss, duplication or reordering after subscription)",
+         "Writers, range readers, subscribers and unsubscribers run as simulated tasks over the real ProcessLogBuffer with seeded sizes (including the trim boundary); the recorded history is checked with porcupine against a sequential model, every GetLogRange(offset, limit) over a grid of arguments is compared with the model's window, and each follower must receive exactly the lines written after its snapshot. The REST/websocket transport of logs is not part of the check: see DESIGN.md."),
  "C09": ("exploration", "3.C09", "seeded simulated runs; every status transition observed synchronously; reported state vs simulated process table at every stable point",
          "Every transition (synchronous hook, not sampled) is checked against the legal relation and the reported state is compared with ground truth at every stable point of every run."),
 }
